@@ -5,6 +5,7 @@ import (
 	"encoding/binary"
 	"fmt"
 	"runtime"
+	"strings"
 	"sync"
 	"time"
 
@@ -32,17 +33,21 @@ type c11Case struct {
 	ProdYield   int    `json:"producer_yield"`
 	Barrier     bool   `json:"barrier"` // producers start together
 	Inbound     int    `json:"inbound"` // echo requests arriving on the same connection while the producers submit (full duplex)
+	Virtual     bool   `json:"virtual"` // run in a virtual-time bubble: producers pause IdleSec seconds before every IdleEvery-th submission
+	IdleEvery   int    `json:"idle_every"`
+	IdleSec     int    `json:"idle_sec"`
 }
 
 func init() {
 	fw.Register(&fw.Prop{
-		ID:       "C11",
-		Race:     true,
-		Rule:     "one real MessageStream per case over a scripted connection that records every Write: 1..64 producer goroutines each submit 1..200 messages with unique transaction ids (producer<<20 | sequence), kinds and sizes from a PRNG keyed by (producer, sequence) - 8-byte echo requests to flow-mods with hundreds of actions and packet-outs with up to 60 KiB of payload - built through the public API; an identical twin of each message is encoded beforehand to obtain the expected bytes. Pacing plans yield/sleep inside Write and between submissions; GOMAXPROCS 1/2/4/16. The concatenated written bytes are re-framed by header length and compared with the expected multiset; per producer the sequence numbers must increase. Decided when the expected byte count has been written or at logical quiescence. Built with the race detector. distinct = hash(case parameters); non-trivial = at least 2 producers and 2 messages each",
-		NumCases: func(tier string, seed uint64) int { return nCases(tier, 900, 60000) },
-		Gen:      c11Gen,
-		NewCase:  func() any { return new(c11Case) },
-		Eval:     c11Eval,
+		ID:          "C11",
+		Race:        true,
+		VirtualTime: true,
+		Rule:        "one real MessageStream per case over a scripted connection that records every Write: 1..64 producer goroutines each submit 1..200 messages with unique transaction ids (producer<<20 | sequence), kinds and sizes from a PRNG keyed by (producer, sequence) - 8-byte echo requests to flow-mods with hundreds of actions and packet-outs with up to 60 KiB of payload - built through the public API; an identical twin of each message is encoded beforehand to obtain the expected bytes. Pacing plans yield/sleep inside Write and between submissions; GOMAXPROCS 1/2/4/16. The concatenated written bytes are re-framed by header length and compared with the expected multiset; per producer the sequence numbers must increase. Decided when the expected byte count has been written or at logical quiescence. Built with the race detector. distinct = hash(case parameters); non-trivial = at least 2 producers and 2 messages each",
+		NumCases:    func(tier string, seed uint64) int { return nCases(tier, 900, 60000) },
+		Gen:         c11Gen,
+		NewCase:     func() any { return new(c11Case) },
+		Eval:        c11Eval,
 		Minimum: func(a *fw.Agg) error {
 			if a.Counters["streams"] < 100 || a.Counters["frames_written"] < 10000 || a.Counters["adjacent_pairs_from_different_producers"] < 1000 {
 				return fmt.Errorf("too little observed: streams=%d frames=%d interleaved_pairs=%d", a.Counters["streams"], a.Counters["frames_written"], a.Counters["adjacent_pairs_from_different_producers"])
@@ -78,6 +83,14 @@ func c11Gen(tier string, seed uint64, i int) any {
 	c.Barrier = r.Bool()
 	if i%3 == 1 {
 		c.Inbound = r.Pick(10, 100, 300)
+	}
+	if i%8 == 5 { // a connection that is idle for seconds to days between submissions (virtual time)
+		c.Virtual = true
+		c.IdleEvery, c.IdleSec = r.Pick(1, 2, 9), r.Pick(1, 11, 31, 61, 601, 3600, 86400)
+		if c.Producers*c.PerProducer > 120 {
+			c.PerProducer = maxInt(1, 120/c.Producers)
+		}
+		c.WriteSleep = 0
 	}
 	return c
 }
@@ -123,6 +136,31 @@ func c11Recipe(cs *c11Case, p, s int) *rec.Rec {
 
 func c11Eval(c *fw.Ctx, data any) {
 	cs := data.(*c11Case)
+	if cs.Virtual {
+		ran, leak := bubble(func(wait func()) { c11Run(c, cs, wait) })
+		if ran {
+			c.Count("virtual_time_streams", 1)
+			if leak != "" {
+				c.Count("virtual_time_streams_leaving_goroutines_behind", 1)
+				c.Set("virtual_time_leak_reports", leak)
+				if strings.Contains(leak, "all goroutines in bubble are blocked") {
+					// the case itself was still waiting (for its producers to get their messages accepted) when
+					// nothing in the bubble could run any more and no timer was left to fire
+					c.Violation("outbound", "wedge", "deadlock-in-virtual-time", fmt.Sprintf("producers are blocked on the Outbound channel for ever: every goroutine of the stream is blocked and no timer is pending (%s)\ncase: %+v", leak, *cs))
+				}
+			}
+			c.Recycle()
+			return
+		}
+		c.Count("virtual_time_cases_run_in_real_time", 1)
+		cp := *cs
+		cp.Virtual, cp.IdleEvery, cp.IdleSec = false, 0, 0
+		cs = &cp
+	}
+	c11Run(c, cs, nil)
+}
+
+func c11Run(c *fw.Ctx, cs *c11Case, vtWait func()) {
 	defer recycleEvery(c, 60)
 	old := runtime.GOMAXPROCS(cs.Procs)
 	defer runtime.GOMAXPROCS(old)
@@ -223,6 +261,7 @@ func c11Eval(c *fw.Ctx, data any) {
 		constructorWedged(c, "outbound")
 		return
 	}
+	s.vtWait = vtWait
 	// the exported protocol-version field of the stream, set before anything is submitted
 	s.stream.Version = uint8([]int{0, 0, 4, 1, 5, 255}[cs.MsgSeed%6])
 	c.Count("streams", 1)
@@ -244,6 +283,9 @@ func c11Eval(c *fw.Ctx, data any) {
 			}
 			var resend []pending
 			for k := range items[p] {
+				if cs.Virtual && cs.IdleEvery > 0 && k%cs.IdleEvery == 0 {
+					time.Sleep(time.Duration(cs.IdleSec) * time.Second) // virtual: the connection sits idle meanwhile
+				}
 				s.stream.Outbound <- items[p][k].msg
 				if items[p][k].again > 0 {
 					resend = append(resend, pending{k + items[p][k].again, items[p][k].msg})
